@@ -384,3 +384,17 @@ func probe(node *dev.Node, timeout time.Duration) bool {
 		return false
 	}
 }
+
+
+// errVerifCause is the reason given to contexts made by newCancelCtx(true).
+var errVerifCause = errors.New("verif: cancelled with a cause")
+
+// newCancelCtx returns a cancellable context.  withCause: the context is cancelled with a reason, so that
+// context.Cause(ctx) differs from ctx.Err(); the library must report ctx.Err() (errors.Is(err, context.Canceled)).
+func newCancelCtx(withCause bool) (context.Context, context.CancelFunc) {
+	if withCause {
+		ctx, c := context.WithCancelCause(context.Background())
+		return ctx, func() { c(errVerifCause) }
+	}
+	return context.WithCancel(context.Background())
+}
